@@ -56,6 +56,14 @@ func (spec *Spec) Validate() error {
 		return fmt.Errorf("sourceNamespace and template cannot be specified at the same time")
 	}
 
+	if spec.Template != "" {
+		t := template.New("").Delims(spec.LeftDelim, spec.RightDelim)
+		t.Funcs(sprig.TxtFuncMap()).Funcs(extraFuncs)
+		if _, err := t.Parse(spec.Template); err != nil {
+			return fmt.Errorf("invalid template: %v", err)
+		}
+	}
+
 	return nil
 }
 
